@@ -199,6 +199,7 @@ def evaluate(sc: dict):
         if reachable:
             exp = apispec.expect_api(gen, tgt, st["call"], st["args"], ctx)
             v["expect"] = "raise" if exp.get("raise") else "accept" if "accept" in exp else "skip:" + exp.get("skip", "")
+            v["inexpressible"] = bool(exp.get("inexpressible"))
             if "accept" in exp:
                 v["meaning_ok"] = [any(_safe(p, f["reading"]) for p in exp["accept"]) for f in cmd]
                 v["policy"] = exp.get("policy")
